@@ -13,6 +13,8 @@ import GbVerif.Proofs.X86Writes
 import GbVerif.Proofs.X86Safe
 import GbVerif.Proofs.X86SimMoves
 import GbVerif.Proofs.X86SimAlu3
+import GbVerif.Proofs.X86SimCb
+import GbVerif.Proofs.X86SimBit
 /-!
 C01 — translated blocks have the same architectural effect as the interpreter.
 (Structural facts first; the x86 model and per-template simulation lemmas are added by `Proofs/X86*.lean`.)
@@ -362,7 +364,8 @@ example : (match decodeCode (Gen.emitOp 0xc5) with
 encoding `b0` with operand bytes `b1 b2` ends in a host state related to the register file `Interp.runOp` produces from
 `g` (cycles included), with the bus, the host stack and the status byte untouched.  The statement for ALL register-only
 encodings is `RegisterSimulation`; it is PROVED for the register-transfer family (70 encodings) and for the 8-bit
-arithmetic and logic on A with a register or immediate operand, flags included (48 encodings), and otherwise carried by the
+arithmetic and logic on A with a register or immediate operand, flags included (48 encodings), and RES / SET b,r of the
+CB page (112 encodings: `SimulatesCb`) and BIT b,r (56 encodings: `SimulatesCbF`), and otherwise carried by the
 native differential and the exhaustive `c01.grid`. -/
 
 /-- the full statement for an encoding that touches no memory (not proved in general) -/
@@ -394,6 +397,24 @@ theorem simulation_alu_partial :
 
 /-- ADD A,B = 0x80, SUB L = 0x95, XOR A = 0xAF, CP E = 0xBB -/
 example : opcodeAdd .B = 0x80 ∧ opcodeSub .L = 0x95 ∧ opcodeXor .A = 0xaf ∧ opcodeCp .E = 0xbb := by decide
+
+
+/-- **simulation_cb_partial**: RES b,r and SET b,r for the eight bits and the seven registers (112 encodings of the CB
+page) — for all states -/
+theorem simulation_cb_partial : ∀ (b : Fin 8) (r : Reg8) (b2 : Nat), SimulatesCb (opcodeRes b r) b2 ∧ SimulatesCb (opcodeSet b r) b2 :=
+  fun b r b2 => ⟨sim_res b r b2, sim_set b r b2⟩
+
+/-- RES 0,B = CB 80, SET 7,A = CB FF, and the masks are the bit's -/
+example : opcodeRes 0 .B = 0x80 ∧ opcodeSet 7 .A = 0xff ∧ bitMask 3 = 8 := by decide
+
+
+/-- **simulation_bit_partial**: BIT b,r for the eight bits and the seven registers (56 encodings) — for all states whose F
+has a clear low nibble (the template clears that nibble, the interpreter keeps it; no reachable register file has it
+set: POP AF masks it, every flag-writing instruction clears or copies it); the template's scratch use of the status byte
+leaves 0 or 0x80 there -/
+theorem simulation_bit_partial : ∀ (b : Fin 8) (r : Reg8) (b2 : Nat), SimulatesCbF (opcodeBit b r) b2 := sim_bit
+
+example : opcodeBit 7 .H = 0x7c := by decide
 
 /-- the opcodes covered are the SM83's: LD B,C = 0x41, LD A,n = 0x3E, LD SP,nn = 0x31, DEC HL = 0x2B -/
 example : opcodeLd8 .B .C = 0x41 ∧ opcodeLdI .A = 0x3e ∧ opcodeLd16 .SP = 0x31 ∧ opcodeDec16 .HL = 0x2b := by decide
